@@ -1122,6 +1122,7 @@ def run_update(ctx, a, rule="R09.12"):
     base = [sym(x) for x in symbols] + [ONE - sym("HASOLD")]
     results = []
     refill_viol, refill_und, refill_ok = [], [], [0]
+    empties = []
     for path in arm_paths(b, 0):
         complete = True
         alts = [[]]
@@ -1226,6 +1227,38 @@ def run_update(ctx, a, rule="R09.12"):
                         break
                 if verdict == "VIOLATED":
                     break
+            # R09.9 (decided here for group emissions): a path that answers Some(..) with only `x n` groups whose counts can all
+            # be 0 at once answers Some(<empty list>)
+            if ems and complete and all(not (isinstance(c_, Lin) and c_.is_const() and c_.c >= 1) for (_e, c_, _p, _v) in ems) and not any(_e in ("Clear", "Reset", "Append", "Truncate") for (_e, c_, _p, _v) in ems):
+                for bs in alts:
+                    cons0 = base + bs + extra
+                    if feasible(cons0) is False:
+                        continue
+                    cases = [cons0]
+                    ok_terms = True
+                    for (_e, c_, _p, _v) in ems:
+                        nxt = []
+                        try:
+                            for pc, val in pieces(c_):
+                                if val is None:
+                                    ok_terms = False
+                                    continue
+                                for cs in cases:
+                                    nxt.append(cs + pc + [ZERO - val])
+                        except Exception:
+                            ok_terms = False
+                        cases = nxt
+                    if not ok_terms:
+                        continue
+                    for cs in cases:
+                        if feasible(cs) is True:
+                            w = witness(cs, {"N", "O", lsym, "HASOLD"})
+                            if w is not None:
+                                empties.append((path, "with %d buffered item(s), %s %s -> %d the function returns Some([%s]) with n = 0, an empty list" % (
+                                    w.get("N", 0), a.param, ("%d" % w.get("O", 0)) if has_old else "unset", w.get(lsym, 0), ", ".join(seq)), ",".join(seq)))
+                                break
+                    if empties:
+                        break
             guards = []
             for s_, t_ in zip(path, path[1:]):
                 for fct in conds.edge_facts(b, s_, t_):
@@ -1268,6 +1301,10 @@ def run_update(ctx, a, rule="R09.12"):
         ctx.undecided(rule, f, "view-length:update", where, "; ".join(sorted({r[2] for r in und}))[:300])
     elif not viol:
         ctx.holds(rule, f, "view-length:update", where, "%d path(s): view_old(N) + effects of the returned diffs = view_new(N) in every feasible case" % len(results))
+    if empties:
+        path, det_, seq_ = empties[0]
+        ctx.violated("R09.9", f, "some-is-nonempty|%s" % seq_, b.line_at((path[-2] if len(path) > 1 else path[-1], 0)),
+                     "%s `%s`: %s - the poll function turns that into Ready(None) through extend_*_buf, ending the adapter's stream while the source is alive" % (a.name, f.name, det_))
     if refill_viol:
         path, det_, seq_ = refill_viol[0]
         ctx.violated("R09.15", f, "refill-position:update|%s" % seq_, b.line_at((path[-2] if len(path) > 1 else path[-1], 0)), "%s `%s`: %s" % (a.name, f.name, det_))
